@@ -396,7 +396,7 @@ esl_hxp_invcdf(double p, ESL_HYPEREXP *h)
   do {				/* bracket */
     x2 = x2 + 2.*(x2-x1);
     f2 = esl_hxp_cdf(x2, h);
-  } while (f2 < p);
+  } while (f2 < p && x2 < eslINFINITY); /* p above the largest cdf value (coefficients summing to 1-ulp): stop at +inf */
 
   do {				/* bisection */
     xm = (x1+x2) / 2.;
